@@ -144,6 +144,12 @@ def _gen_wrapper(rng, faulty):
     w = {"kind": kind, "bin": rng.choice([None, None, f"/opt/tools/bin/{kind}"])}
     if kind in ("stublocal", "stubpoll"):
         w["bin"] = "stubtool"
+        if kind == "stubpoll" and rng.random() < 0.5:
+            # the polling wrapper is a WebApp: every state refresh is a server contact, contacts closer than `gap`
+            # simulated seconds break the server's rules (a usually-successful call returns a retryable error)
+            w["web"] = {"obey": rng.random() < 0.65, "gap": rng.choice([0.0, 0.05, 0.5, 1.0, 3.0, 60.0]),
+                        "msg": rng.choice([None, "The server was contacted too often"]),
+                        "url": rng.choice(["https://sim.example/cgi", "http://localhost:8080/run"])}
     else:
         w["seqs"] = _gen_seqs(rng, kind)
         w["matrix"] = None
@@ -273,7 +279,7 @@ def generate(rng):
         if choice == "result" and not RESULTS[kind]:
             choice = "getter"
         if choice == "getter" and kind == "stubpoll":
-            choice = "state"
+            choice = "app_url" if w.get("web") and rng.random() < 0.5 else "state"
         if choice == "start":
             ops.append({"w": cur, "op": "start"})
             if s["st"] == CREATED:
@@ -294,6 +300,8 @@ def generate(rng):
                 s["st"] = "ENDED"
         elif choice == "state":
             ops.append({"w": cur, "op": "state"})
+        elif choice == "app_url":
+            ops.append({"w": cur, "op": "app_url"})
         elif choice == "setter":
             o = _gen_setter(rng, kind, nseq)
             o["w"] = cur
@@ -312,6 +320,15 @@ def generate(rng):
 # ================================================================================================
 # execution
 # ================================================================================================
+
+class _RuleHit(InvalidSpec):
+    """Carries a RuleViolationError of a WebApp wrapper past the per-operation models to dispatch_web()
+    (core.call lets InvalidSpec through)."""
+
+    def __init__(self, exc):
+        super().__init__("rule violation")
+        self.exc = exc
+
 
 class WRec:
     def __init__(self, idx, wspec):
@@ -828,6 +845,53 @@ class Sim:
 
     # -- everything else
     def dispatch(self, rec, op):
+        if rec.spec.get("web"):
+            return self.dispatch_web(rec, op)
+        return self.dispatch_plain(rec, op)
+
+    def dispatch_web(self, rec, op):
+        """WebApp flavour of the polling wrapper. Its is_finished() contacts a simulated server that allows one contact
+        per `gap` simulated seconds and reports anything closer through WebApp.violate_rule(). Documented contract of
+        webapp.py: with obey_rules the call raises RuleViolationError (custom or default message), without it nothing
+        is raised. Model: a rule violation is a retryable error of that one call - it ends no run, so the wrapper
+        keeps its state, its files and its (zero) clean-up count, and later calls behave as if it had not happened."""
+        from biotite.application import RuleViolationError
+
+        web = rec.spec["web"]
+        rec.web_flag = 0
+        snap = self.snapshot(rec)
+        own_files = sorted(f for f in rec.files if os.path.exists(f))
+        model_state = rec.state
+        try:
+            out = self.dispatch_plain(rec, op, web=True)
+        except _RuleHit as hit:
+            self.res.stats["fault:web-rule-violation-raised"] += 1
+            if not web["obey"]:
+                self.fail("web:rule-violation-raised-although-rules-are-not-obeyed", op=op["op"])
+            if not rec.web_flag:
+                self.fail("web:rule-violation-without-violation", op=op["op"])
+            if type(hit.exc) is not RuleViolationError:
+                self.fail("web:wrong-exception-class", got=exc_name(hit.exc))
+            exp_msg = web["msg"] if web["msg"] is not None else "The user guidelines would be violated"
+            if str(hit.exc) != exp_msg:
+                self.fail("web:wrong-message", got=str(hit.exc)[:100], expected=exp_msg)
+            snap2 = self.snapshot(rec)
+            # simulated time may have passed inside join(): other wrappers' children may have exited or written files
+            # meanwhile, so the comparison is restricted to what belongs to this wrapper
+            changed = [k for k in snap if snap[k] != snap2[k] and k not in ("now", "files", "alive")]
+            if sorted(f for f in rec.files if os.path.exists(f)) != own_files:
+                changed.append("own-files")
+            if changed:
+                self.fail("web:rule-violation-with-side-effects", op=op["op"], changed=changed)
+            rec.state = model_state
+            return "RuleViolationError"
+        if rec.web_flag and web["obey"]:
+            self.fail("web:rule-violation-swallowed", op=op["op"], outcome=out)
+        if rec.web_flag:
+            self.res.stats["fault:web-rule-violation-ignored"] += 1
+        return out
+
+    def dispatch_plain(self, rec, op, web=False):
         from biotite.application import AppStateError
 
         name = op["op"]
@@ -836,6 +900,16 @@ class Sim:
         fn, args, kwargs = self.bind(rec, op)
         if fn is None:
             return "n/a"
+        if web:
+            from biotite.application import RuleViolationError
+
+            inner = fn
+
+            def fn(*a, **k):
+                try:
+                    return inner(*a, **k)
+                except RuleViolationError as e:
+                    raise _RuleHit(e) from None
         if rec.state == LAUNCH_FAILED:
             # unspecified legality; resource invariants only
             st, val = call(fn, *args, **kwargs)
@@ -899,6 +973,10 @@ class Sim:
             return app.cancel, (), {}
         if name == "state":
             return app.get_app_state, (), {}
+        if name == "app_url":
+            if not rec.spec.get("web"):
+                return None, None, None
+            return app.app_url, (), {}
         if name in LOCAL_GETTERS:
             if k == "stubpoll":
                 return None, None, None
@@ -1050,6 +1128,12 @@ class Sim:
         if getattr(val, "name", str(val)) != rec.state:
             self.fail("state:wrong-state", kind=rec.kind, got=str(val), expected=rec.state)
         return "ok:" + rec.state
+
+    def x_app_url(self, rec, op, fn, args, kwargs):
+        st, val = call(fn)
+        if st == "exc" or val != rec.spec["web"]["url"]:
+            self.fail("web:app_url", got=exc_name(val) if st == "exc" else str(val)[:100], expected=rec.spec["web"]["url"])
+        return "ok"
 
     def x_start(self, rec, op, fn, args, kwargs):
         script = rec.script
@@ -1520,11 +1604,22 @@ def make_stub_poll(sim, rec):
     world = sim.world
     script = rec.script
 
-    class StubPollApp(Application):
-        """Minimal subclass driving Application.start/join/cancel/get_app_state (the polling join)."""
+    web = rec.spec.get("web")
+    if web:
+        from biotite.application import WebApp
+
+        base, base_args = WebApp, (web["url"],) if web["obey"] else (web["url"], False)
+    else:
+        base, base_args = Application, ()
+    rec.web_last = None
+    rec.web_flag = 0
+
+    class StubPollApp(base):
+        """Minimal subclass driving Application.start/join/cancel/get_app_state (the polling join); optionally a WebApp
+        whose status requests are rate-limited by the simulated server."""
 
         def __init__(self):
-            super().__init__()
+            super().__init__(*base_args)
             self._res = None
 
         def run(self):
@@ -1541,6 +1636,16 @@ def make_stub_poll(sim, rec):
 
         def is_finished(self):
             world.fire_due()
+            if web:
+                last = rec.web_last
+                if last is not None and 0 <= world.now - last < web["gap"]:
+                    rec.web_flag += 1
+                    world.stats["fault:web-contact-too-frequent"] += 1
+                    if web["msg"] is None:
+                        self.violate_rule()
+                    else:
+                        self.violate_rule(web["msg"])
+                rec.web_last = world.now
             return world.now >= rec.job["exit_at"]
 
         def wait_interval(self):
